@@ -226,3 +226,46 @@ def spell(family, assignment, order=None):
     """Vector string from a metric->value mapping in the given (default: spec) order."""
     order = order or [m for m in METRICS[family] if m in assignment]
     return PREFIX[family] + "/".join("%s:%s" % (m, assignment[m]) for m in order)
+
+
+# ---------------------------------------------------------------- block layouts
+# The metric blocks of each version in specification order. A "block layout" writes the blocks in
+# another order (every permutation of the blocks: 24 for v2/v3, 120 for v4) keeping the order
+# inside a block, optionally with each block reversed. Among them are the orders of every table a
+# maintainer could plausibly iterate instead of the specification order (base, supplemental,
+# modified, requirements, threat - the library's own METRICS table of v4 - and the like).
+BLOCKS = {
+    "2": [V2_BASE, V2_TEMPORAL, ["CDP", "TD"], ["CR", "IR", "AR"]],
+    "3.0": [V3_BASE, V3_TEMPORAL, ["CR", "IR", "AR"], V3_MODIFIED],
+    "3.1": [V3_BASE, V3_TEMPORAL, ["CR", "IR", "AR"], V3_MODIFIED],
+    "4.0": [V4_BASE, V4_THREAT, ["CR", "IR", "AR"], V4_MODIFIED, V4_SUPPLEMENTAL],
+}
+
+
+def block_layouts(family, assignment, reverse_inside=False):
+    """All distinct field orders of `assignment` obtained by permuting the version's metric blocks
+    (block-internal order kept, or reversed in every block when reverse_inside). Deterministic."""
+    import itertools as _it
+    blocks = [[m for m in b if m in assignment] for b in BLOCKS[family]]
+    blocks = [b for b in blocks if b]
+    out, seen = [], set()
+    for perm in _it.permutations(range(len(blocks))):
+        order = []
+        for k in perm:
+            order += blocks[k][::-1] if reverse_inside else blocks[k]
+        t = tuple(order)
+        if t not in seen:
+            seen.add(t)
+            out.append(order)
+    return out
+
+
+def full_assignment(family, pick=-1):
+    """Every metric of the version defined: value number `pick` of its table (never Not Defined)."""
+    out = OrderedDict()
+    for m, vals in METRICS[family].items():
+        vs = [v for v in vals if v != ND[family]]
+        # a Modified metric gets another value than its base metric, so that the order in which
+        # the two are read matters to anything that confuses them
+        out[m] = vs[(pick + (1 if m in MODIFIED[family] else 0)) % len(vs)]
+    return out
